@@ -144,6 +144,36 @@ func (p *sharePool) share(v reflect.Value, depth int) {
 	}
 }
 
+// scribble overwrites the containers of a request value after the client
+// call returned (a sender refilling one request value between calls).
+func scribble(v reflect.Value, depth int) {
+	if depth > 6 || !v.IsValid() {
+		return
+	}
+	switch v.Kind() {
+	case reflect.Struct:
+		if v.Type() == timeType {
+			return
+		}
+		for i := 0; i < v.NumField(); i++ {
+			if f := v.Field(i); f.CanSet() {
+				scribble(f, depth+1)
+			}
+		}
+	case reflect.Map:
+		if !v.IsNil() && v.Type().Key().Kind() == reflect.String {
+			k := reflect.New(v.Type().Key()).Elem()
+			k.SetString("written-after-return")
+			v.SetMapIndex(k, reflect.Zero(v.Type().Elem()))
+		}
+	case reflect.Slice:
+		if v.Len() > 0 && v.Index(0).CanSet() && v.Type().Elem().Kind() != reflect.Uint8 {
+			scribble(v.Index(0), depth+1)
+			v.Index(0).Set(reflect.Zero(v.Type().Elem()))
+		}
+	}
+}
+
 // modeRace (C20): many goroutines drive ONE API value and ONE Client value
 // with per-request unique values; the process runs under the race detector.
 func modeRace(c *Ctx) {
@@ -187,6 +217,31 @@ func modeRace(c *Ctx) {
 			order = append(order, id)
 			orderMu.Unlock()
 			runtime.Gosched()
+			if id%9 == 5 {
+				// a handler that answers without looking at the request (the body stays unread)
+				if impls := implsOf[op.Key]; len(impls) > 0 {
+					ri := impls[int(id)%len(impls)]
+					g := &Gen{Rng: rand.New(rand.NewSource(id)), Doc: c.Doc, Tag: fmt.Sprintf("req%d", id), TagInt: id, HasTagInt: true}
+					v := c.fillResponse(g, ri, nil)
+					if f := v.FieldByName("Code"); f.IsValid() && f.Kind() == reflect.Int {
+						code := 599
+						for isDocumented(op, code) {
+							code--
+						}
+						f.SetInt(int64(code))
+					}
+					if b := v.FieldByName("Body"); b.IsValid() && (b.Type() == readerType || b.Type() == readCloserType) {
+						yr := &yieldReader{r: strings.NewReader(fmt.Sprintf("req%d", id)), n: &yields}
+						if b.Type() == readerType {
+							b.Set(reflect.ValueOf(io.Reader(yr)))
+						} else {
+							b.Set(reflect.ValueOf(io.ReadCloser(yr)))
+						}
+					}
+					return v
+				}
+				return reflect.Value{}
+			}
 			params, err := Parse(req)
 			if atomic.AddInt64(&seq, 1)%5 == 0 {
 				time.Sleep(time.Duration(id%7) * 10 * time.Microsecond)
@@ -397,6 +452,12 @@ func modeRace(c *Ctx) {
 					ctx := context.WithValue(context.Background(), raceIDKey{}, id)
 					outs := op.ClientM.Func.Call([]reflect.Value{cl, reflect.ValueOf(ctx), params})
 					c.Stat("requests", 1)
+					if id%4 != 1 {
+						// the call has returned: the request value is the caller's again
+						if b := params.FieldByName("Body"); b.IsValid() && b.CanSet() {
+							scribble(b, 0)
+						}
+					}
 					if e, ok := outs[1].Interface().(error); ok && e != nil {
 						// ambiguous path values and undecodable defaults are outside the domain; count only
 						c.Stat("client_errors", 1)
